@@ -302,14 +302,15 @@ func (ex *Exec) checkFrame(st *State, n ast.Node, ord int, con *Contract) {
 	}
 	sort.Strings(names)
 	ctr0 := ex.pre.ctr
+	// one obligation per struct type (its field heaps together), so that a function touching the
+	// ninety fields of StyleAttributes does not produce ninety obligations per return
+	groups := map[string][]*Term{}
+	var gk []string
 	for _, h := range names {
 		cur := st.heap[h]
 		old := ex.pre.heapGet(h, heapSorts[h])
 		if cur == old {
 			continue
-		}
-		if strings.HasPrefix(h, "G$") && len(allowed[h]) == 0 {
-			// ghost state not mentioned: must be unchanged too
 		}
 		whole := false
 		var ne []*Term
@@ -326,7 +327,21 @@ func (ex *Exec) checkFrame(st *State, n ast.Node, ord int, con *Contract) {
 		}
 		cond := And(append(ne, Lt(r, ctr0))...)
 		goal := Forall([]*Term{r}, Implies(cond, Eq(Select(cur, r), Select(old, r))))
-		ex.obligNoAssume(st, "assigns", n, fmt.Sprintf("ret%d:%s", ord, describeHeapName(h)), goal)
+		g := heapGroup(describeHeapName(h))
+		if len(allowed[h]) > 0 {
+			g = describeHeapName(h) // heaps with explicit targets are reported one by one
+		}
+		if _, ok := groups[g]; !ok {
+			gk = append(gk, g)
+		}
+		groups[g] = append(groups[g], goal)
+	}
+	for _, g := range gk {
+		name := g
+		if len(groups[g]) > 1 {
+			name = g + ".*"
+		}
+		ex.obligNoAssume(st, "assigns", n, fmt.Sprintf("ret%d:%s", ord, name), And(groups[g]...))
 	}
 }
 
